@@ -82,6 +82,10 @@ def build(cfg):
         S.hit("ev")
         return np.asarray(t - tau)
 
+    if cfg.get("terminal"):
+        # the time event ends the run: the step in which it is found is rolled back and the system walks to the root in shorter steps (a nested run)
+        ev2.is_terminal = True
+
     def cb1(s):
         S.hit("cb")
 
@@ -191,7 +195,14 @@ def fault_case(case):
         except BaseException as e2:     # noqa
             r.v(key("resume-raised"), "calling integrate again continues from the end of the prefix", cs, observed=repr(getattr(e2, "__cause__", e2))[:200], expected="completes")
             continue
-        okseg = driver.segment_invariants(r, "C12/resume/%s/%s" % (name, site), cs, a.t, a.y, 0, len(a) - 1, tf, ref_t[0], y0, dtype)
+        end_target = tf
+        if cfg.get("terminal"):
+            # the resumed run stops at the terminal event again (located from other steps than in the fault-free run: compared at the level of the location)
+            end_target = a.t[-1]
+            if abs(float(a.t[-1]) - float(ref_t[-1])) > 1e-6 or [float(s.t) for s in a.events][-1:] != [float(a.t[-1])] or len(a.events) != len(ref_events):
+                r.v(key("resume-terminal"), "calling integrate again continues correctly: it stops at the terminal event, reported once", cs,
+                    observed=dict(end=float(a.t[-1]), events=[float(s.t) for s in a.events]), expected=dict(end=float(ref_t[-1]), events=ref_events))
+        okseg = driver.segment_invariants(r, "C12/resume/%s/%s" % (name, site), cs, a.t, a.y, 0, len(a) - 1, end_target, ref_t[0], y0, dtype)
         if okseg:
             # (a) accuracy: the resumed trajectory is as good as the fault-free one (closed form: rotation)
             def exact_err(t, y):
@@ -204,7 +215,7 @@ def fault_case(case):
                 r.v(key("resume-accuracy"), "the resumed run is as accurate as the fault-free run", cs,
                     observed=dict(err_resumed=err_res, err_fault_free=err_ref), expected="<= 4 x fault-free error + 500 tol")
             # (b) memoryless fixed-step methods: bit-identical to a fresh system started at the end of the prefix
-            if fam in ("fixed-explicit", "splitting") and not second:
+            if fam in ("fixed-explicit", "splitting") and not second and not cfg.get("terminal"):
                 cfg2 = dict(cfg, span=[float(ref_t[n - 1]), tf])
                 b2, S2, kw2, _, _ = build(cfg2)
                 b2 = None
@@ -343,6 +354,13 @@ def configs(ctx):
                     out.append(dict(method=m, span=span, dt0=(0.2 if long_running else dt0), tol=tol, jac=jac, dense=dense, evcb=evcb))
                     if m in ("RK4Solver", "RK45CKSolver") and dense and evcb:
                         out.append(dict(method=m, span=span, dt0=dt0, tol=tol, jac=jac, dense=dense, evcb=evcb, against=True))
+    # a terminal event: faults inside the walk to its root (after some of the walk's steps have been accepted), dense output on and off
+    for (m, dt0, tol, jac) in (("RK4Solver", 0.7, 1e-6, None), ("RK45CKSolver", 3.0, 1e-4, None), ("DOPRI45", 0.7, 1e-4, None), ("ImplicitMidpoint", 0.7, 1e-6, "user")):
+        for span in ([0.0, 2.0], [1.0, -1.0]):
+            for dense in (True, False):
+                if ctx.quick and not dense and m not in ("RK4Solver",):
+                    continue
+                out.append(dict(method=m, span=span, dt0=dt0, tol=tol, jac=jac, dense=dense, evcb=True, terminal=True))
     # single precision
     out.append(dict(method="RK45CKSolver", span=[0.0, 2.0], dt0=3.0, tol=1e-4, jac=None, dense=True, evcb=True, dtype="float32"))
     out.append(dict(method="RK4Solver", span=[1.0, -1.0], dt0=0.7, tol=1e-4, jac=None, dense=True, evcb=True, dtype="float32"))
